@@ -41,6 +41,12 @@ func (c *PartCase) UnmarshalJSON(b []byte) error {
 	if err := json.Unmarshal(b, &j); err != nil {
 		return err
 	}
+	if j.Part == "" && j.Case == nil && len(c.parts) > 0 {
+		// a case file written before the property became a combination: it belongs to the first part
+		c.Part = c.parts[0].Name
+		c.Case = c.parts[0].P.New()
+		return json.Unmarshal(b, c.Case)
+	}
 	for _, p := range c.parts {
 		if p.Name == j.Part {
 			c.Part = j.Part
